@@ -132,7 +132,7 @@ def interpret(c, engine):
 
     def edit(rel, content, mode="normal"):
         engine.edit(rel, content, mode)
-        steps.append(("edit", rel, content))
+        steps.append(("edit", rel, content, mode != "normal"))      # in place / new inode: the mtime is kept
         if content is None:
             cur.pop(rel, None)
         else:
@@ -143,7 +143,7 @@ def interpret(c, engine):
         steps.append(("render", rel, ctx))
         results.append(res)
         if fired:                                   # the armed edit took place after the file's bytes had been read
-            steps.append(("edit", hook[0], hook[1]))
+            steps.append(("edit", hook[0], hook[1], False))
             cur[hook[0]] = hook[1]
 
     for p, ct in SETUP:
@@ -348,6 +348,13 @@ class C17(Check):
                 n += 1
                 yield {"kind": 0, "root": root, "cache": cache, "rel": rel,
                        "base": [("a", "CFG"), ("z", "Z")] if n % 3 == 0 else [], "relname": (n % 5 == 0), "history": h}
+        # D18 family: the same mtime-keeping edits with root_dir + cache (jinja2.FileSystemLoader, mtime-only test);
+        # and with root_dir without cache, where they must be noticed
+        for h in (["R", "Sm", "R"], ["R", "Sj", "R"], ["R", "Sk", "R"], ["R", "Nm", "R"], ["R", "Nj", "R"]):
+            yield {"kind": 0, "root": True, "cache": True, "rel": True, "base": [], "relname": False, "history": h, "d18": True}
+            yield {"kind": 0, "root": True, "cache": False, "rel": True, "base": [], "relname": False, "history": h}
+            yield {"kind": 0, "root": True, "cache": True, "rel": True, "base": [], "relname": False,
+                   "history": ["R", "E" + h[1][1], "R"] if h[1][1] in "mjk" else h}
         # allow-lists
         qs = MODULES + list(reversed(MODULES))
         for a in ENTRIES:
@@ -375,23 +382,22 @@ class C17(Check):
             return run_engine(c)
         return run_helper(c)
 
-    def extra_checks(self, tier, rng, report):
-        """informational: root_dir + cache_enabled uses jinja2.FileSystemLoader, whose up-to-date test is the mtime
-        alone; an edit that restores the mtime is outside the property's assumption ("each edit changes the stat version
-        and the mtime") - what the unchanged code does then is recorded, not judged"""
-        stale = 0
-        total = 0
-        cases = [{"kind": 0, "root": True, "cache": True, "rel": True, "base": [], "relname": False, "history": h}
-                 for h in (["R", "Sm", "R"], ["R", "Sj", "R"], ["R", "Sk", "R"], ["R", "Nm", "R"], ["R", "Nj", "R"])]
-        obs = [self.impl(c) for c in cases]
-        outs = common.run_model(self.ident, [self.line(c, o) for c, o in zip(cases, obs)])
-        for c, o, out in zip(cases, obs, outs):
-            r = common.unsx(out)
-            total += 1
-            if r[2]:
-                stale += 1
-        report["extra"]["fsl_mtime_restored_cases"] = total
-        report["extra"]["fsl_mtime_restored_stale"] = stale
+    # -- D18 (known finding): root_dir + cache_enabled = jinja2.FileSystemLoader with its mtime-only test
+    def model_should_hold(self, c):
+        return not c.get("d18")
+
+    def match_known(self, entry, case, failed):
+        if entry.get("id") != "D18" or case.get("kind") != 0:
+            return False
+        if not (case["root"] and case["cache"] and any(h[0] in "SN" for h in case["history"])):
+            return False
+        try:
+            (c, o, m, fm, fi, rest), = self.evaluate([case])
+        except Exception:                # noqa
+            return False
+        # the model of the CURRENT code (FileSystemLoader compares the mtime only) must reproduce the stale output
+        # exactly; an mtime-changing edit going unnoticed, or anything else, is not this finding
+        return bool(fi) and bool(fm) and self.canon(o) == m
 
     def line(self, c, obs):
         if c["kind"] == 0:
@@ -401,7 +407,7 @@ class C17(Check):
             for st in obs["steps"]:
                 if st[0] == "edit":
                     ct = [] if st[2] is None else [[[[k, s.encode()] for k, s in st[2][0]], st[2][1].encode()]]
-                    steps.append([0, P(st[1]), ct])
+                    steps.append([0, P(st[1]), ct, bool(st[3])])
                 else:
                     name = st[1].encode() if (c["root"] or c["relname"]) else P(st[1])
                     steps.append([1, name, [[k.encode(), v.encode()] for k, v in st[2]]])
